@@ -57,7 +57,7 @@ class C01(SeqProp):
     id = "C01"
     props_file = "Props/C01.v"
     focus = "limits"
-    quick_cases = 380
+    quick_cases = 800
     thorough_cases = 6000
     assumptions = [
         "the model sees a pulse through its sample summary (max amplitude, max |detuning|, average, min/max detuning): computed by numpy on the implementation's own sample arrays",
